@@ -70,4 +70,12 @@ def readSqlS (names : List Bytes) (coerce : List Nat) (fixed : UInt64 → UInt64
   else if !(names.all legalName) || names.eraseDups.length != names.length then .err
   else .ok { cols := cols.filterMap id, n := rows.length }
 
+/-- ReadSQL with a coercion map given by name: a coercion that names a column the result set does not have is an invalid
+argument and is reported (the columns are known once the first row arrives; an empty result set has none to check). -/
+def readSqlNamedS (names : List Bytes) (cmap : List (Bytes × Nat)) (fixed : UInt64 → UInt64) (pfloat : Bytes → Option UInt64)
+    (rows : List (List SqlVal)) : Res :=
+  if rows.isEmpty then .ok LFrame.empty
+  else if cmap.any (fun e => e.2 != 0 && !names.contains e.1) then .err
+  else readSqlS names (names.map (fun n => ((cmap.find? (·.1 == n)).map (·.2)).getD 0)) fixed pfloat rows
+
 end QF
